@@ -191,15 +191,12 @@ func rulesC17(c *Ctx) {
 		okBreak, okNoMore := false, false
 		for _, cv := range pg.condVertices() {
 			cond := pg.Node(cv - 1).(ast.Expr)
-			x, y, op, ok := binaryCmp(cond)
+			x, y, op, ok := cmpOn(cond, func(e ast.Expr) bool { return pl.ObjOf(e) == countVar })
 			if !ok || pl.ObjOf(x) != countVar {
 				continue
 			}
-			b, isB := ast.Unparen(y).(*ast.BinaryExpr)
-			if !isB || b.Op != token.ADD || pl.ObjOf(b.X) != types.Object(pageSize) {
-				continue
-			}
-			if k, isC := pl.ConstInt(b.Y); !isC || k != 1 {
+			// the other side is pageSize + 1 (in any spelling)
+			if lf, k, isLin := linearForm(pl, y); !isLin || k != 1 || len(lf) != 1 || lf["param(int)"] != 1 {
 				continue
 			}
 			t, _ := pg.BranchTargets(cv - 1)
@@ -361,7 +358,7 @@ func rulesC17(c *Ctx) {
 		okB := false
 		inspectNoLit(yf.Body, func(n ast.Node) {
 			if fs, ok := n.(*ast.ForStmt); ok && fs.Cond != nil {
-				if _, y, op, isCmp := binaryCmp(fs.Cond); isCmp && op == token.LSS && strings.Contains(exprStr(y), "len(") {
+				if _, y, op, isCmp := cmpOn(fs.Cond, func(e ast.Expr) bool { return !strings.Contains(exprStr(e), "len(") }); isCmp && op == token.LSS && strings.Contains(exprStr(y), "len(") {
 					okB = true
 				}
 			}
